@@ -382,11 +382,25 @@ class _LayoutBase(Prop):
         group = salt % 4 == 2
         saved_hook = sys.displayhook
         sys.displayhook = lambda value: None          # `with tag:` hands the finished tag to the enclosing hook
+        err = err0 = None
         try:
-            obj = build(t, H, salt, eol, late_meta=late, group=group)
-            obj0 = build(t, H, salt, eol, strip_meta=True, group=group)
+            # a tree of valid children that the library refuses to construct: recorded, like one it cannot render, as
+            # output that is nothing but junk (with and without the metadata nodes separately)
+            try:
+                obj = build(t, H, salt, eol, late_meta=late, group=group)
+            except (TypeError, ValueError, AttributeError, RuntimeError) as ex:
+                err = "\ue00f raised " + type(ex).__name__
+            try:
+                obj0 = build(t, H, salt, eol, strip_meta=True, group=group)
+            except (TypeError, ValueError, AttributeError, RuntimeError) as ex:
+                err0 = "\ue00f raised " + type(ex).__name__
         finally:
             sys.displayhook = saved_hook
+        if err or err0:
+            out = err or render(obj.tagify() if group else obj, H, g["indent"], eol, g["addws"])
+            out0 = err0 or render(obj0.tagify() if group else obj0, H, g["indent"], eol, g["addws"])
+            return {"k": "render", "tree": t, "indent": g["indent"], "eol": eol != "", "addws": g["addws"],
+                    "toks": scan(out, eol), "toks0": scan(out0, eol), "strSame": err == err0, "gen": g}
         if group:
             obj, obj0 = obj.tagify(), obj0.tagify()
         if salt % 16 == 8 and not g.get("mut"):
